@@ -109,6 +109,7 @@ func evalC14Dur(f []string) Result {
 	d := timeutil.Duration(dv)
 	str := d.String()
 	text, merr := d.MarshalText()
+	text = ownedTextC14(text, func() ([]byte, error) { return d.MarshalText() }, &merr)
 	d2 := timeutil.Duration(12345) // a receiver that held another value before
 	buf := bytes.Clone(text)
 	uerr := d2.UnmarshalText(buf)
@@ -193,6 +194,7 @@ func evalC14HP(f []string) Result {
 	direct := "ok"
 	brackets := strings.ContainsAny(host, "[]")
 	text, merr := hp.MarshalText()
+	text = ownedTextC14(text, func() ([]byte, error) { return hp.MarshalText() }, &merr)
 	hp2 := netutil.HostPort{Host: "earlier.example", Port: 1} // a receiver that held another value before
 	buf := bytes.Clone(text)
 	uerr := hp2.UnmarshalText(buf)
@@ -425,6 +427,22 @@ func showURLC14(u *urlutil.URL, err error) string {
 	return "ok:" + hx([]byte(u.String()))
 }
 
+// ownedTextC14: the bytes MarshalText returned are the caller's.  It writes into them (in place,
+// and by appending to their zero-length prefix), marshals the same value again and gets the same
+// text; otherwise *merr is set.  Returns a private copy of the first text.
+func ownedTextC14(text []byte, again func() ([]byte, error), merr *error) []byte {
+	first := bytes.Clone(text)
+	for i := range text {
+		text[i] = '#'
+	}
+	_ = append(text[:0], "1h2m3s#########"...)
+	second, err := again()
+	if *merr == nil && (err != nil || !bytes.Equal(second, first)) {
+		*merr = fmt.Errorf("MarshalText gave %q, and after the caller had overwritten that slice it gives %q, %v", first, second, err)
+	}
+	return first
+}
+
 // scrambleC14 overwrites a buffer the code under test was given and must not keep.
 func scrambleC14(b []byte) {
 	for i := range b {
@@ -444,6 +462,7 @@ func evalC14URL(f []string) Result {
 	}
 	s := u.String()
 	text, merr := u.MarshalText()
+	text = ownedTextC14(text, func() ([]byte, error) { return u.MarshalText() }, &merr)
 	// receivers that held another URL (every field set) before; buffers that the caller reuses
 	u2 := &urlutil.URL{URL: *earlierURLC14()}
 	buf := bytes.Clone(text)
